@@ -179,6 +179,7 @@ func (fv *FnV) moduleCall(st *State, callee *ssa.Function, args []ssa.Value, clo
 			}
 		}
 	}
+	fv.docCallArgs(st, callee, k, argTerms, pos)
 	if k != nil {
 		env := fv.calleeEnv(st, st, callee, argTerms, clo, nil)
 		for _, cl := range k.Requires {
@@ -480,13 +481,24 @@ func (fv *FnV) libCall(st *State, callee *ssa.Function, cc *ssa.CallCommon, pos 
 		return str(n), nil
 	case "sort.Slice":
 		ms := newModSet()
-		ms.comps["E|Any"] = true
+		// the sorted slice: its element type and backing array
+		comp, ref := "E|Any", ""
+		if mi, ok := cc.Args[0].(*ssa.MakeInterface); ok {
+			if stt, ok := mi.X.Type().Underlying().(*types.Slice); ok {
+				comp = g.compElem(stt.Elem())
+				ref = "(s!ref " + fv.term(fv.val(mi.X)) + ")"
+			}
+		}
+		if ref == "" {
+			x := arg(0)
+			sl := g.unbox(fv.c, x, types.NewSlice(types.NewInterfaceType(nil, nil)))
+			ref = "(s!ref " + sl + ")"
+		}
+		ms.comps[comp] = true
 		g.dynMods(cc.Args[1], ms)
 		fv.frameCall(st, ms, "sort.Slice", pos)
-		// only the elements of the sorted slice are permuted, other slices keep theirs
-		x := arg(0)
-		sl := g.unbox(fv.c, x, types.NewSlice(types.NewInterfaceType(nil, nil)))
-		fv.frameWrite(st, "E|Any", "(s!ref "+sl+")", pos)
+		// only the elements of the sorted slice are permuted
+		fv.frameWrite(st, comp, ref, pos)
 		fv.havoc(st, ms, "sort.Slice")
 		return &SV{typ: sig.Results()}, nil
 	}
@@ -593,7 +605,9 @@ func (fv *FnV) builtin(st *State, ins ssa.Instruction, b *ssa.Builtin, cc *ssa.C
 	case "delete":
 		mt := cc.Args[0].Type().Underlying().(*types.Map)
 		fv.guardedAccess(st, cc.Args[0], pos, "write")
+		fv.curWriteTarget = cc.Args[0]
 		fv.mapDelete(st, mt, fv.val(cc.Args[0]).v.T, fv.term(fv.val(cc.Args[1])), pos)
+		fv.curWriteTarget = nil
 		return &SV{typ: cc.Signature().Results()}, nil
 	case "recover":
 		r := fv.c.Fresh("recovered", sAny)
